@@ -464,6 +464,40 @@ func TestC12(t *testing.T) {
 							}
 							return false
 						}})
+					// the same while the caller's Config is shared with a connection whose preset
+					// does list that curve (uTLS writes each spec's groups into the Config): what
+					// counts is what THIS hello offered
+					if g == 0x0019 && tg.ID.Client != tls.HelloGolang.Client {
+						var shared *tls.Config
+						add(advCase{name: "tls12_unoffered_curve(listed by another connection on the shared Config)", max: tls.VersionTLS12,
+							plan: func() *tls.VerifPlan { return &tls.VerifPlan{ForceCurve12: tls.CurveID(g)} },
+							ccfg: func(c *tls.Config) { shared = c },
+							// (the other connection is set up while this one waits for the server's
+							// first flight: the server's callback is that moment)
+							scfg: func(c *tls.Config) {
+								c.GetConfigForClient = func(*tls.ClientHelloInfo) (*tls.Config, error) {
+									if shared != nil {
+										other := tls.UClient(nil, shared, tls.HelloFirefox_120) // lists secp521r1
+										other.BuildHandshakeState()
+									}
+									return nil, nil
+								}
+							},
+							value: func(cs tls.ConnectionState) string {
+								if c, ok := stateCurve(cs); ok && c == g {
+									return fmt.Sprintf("curve %#04x", g)
+								}
+								return ""
+							},
+							void: func(ch *wire.ClientHello) bool {
+								for _, x := range ch.Groups {
+									if x == g {
+										return true
+									}
+								}
+								return false
+							}})
+					}
 				}
 			}
 			// (6a) ALPN not offered in a TLS 1.2 ServerHello
@@ -571,6 +605,9 @@ func TestC12(t *testing.T) {
 			r.Violation(sig, fmt.Sprintf("%s: the client completed a handshake although the server chose something the wire hello did not offer (%s); application bytes delivered afterwards: %d (%v)", j.t.Name, j.c.name, delivered, readErr), rep)
 		} else {
 			r.Count("rejected", 1)
+			if strings.Contains(j.c.name, "shared Config") {
+				r.Count("shared_config_curve_selections_refused", 1)
+			}
 			if strings.HasPrefix(j.c.name, "sibling_of_hybrid_share_selected") {
 				r.Count("sibling_group_selections_refused", 1)
 			}
